@@ -413,6 +413,23 @@ theorem forM_update_ok (f : Name → InstRec) :
     rw [bind_apply, hstep]
     exact hs'
 
+theorem requireClassAll_none (s : State) (cls : Name) :
+    ∀ (nss : List Name), requireClassAll s cls nss = none → ∀ n ∈ nss, ∃ r, findNs s n = some r
+  | [], _, n, hn => by cases hn
+  | m :: rest, h, n, hn => by
+    unfold requireClassAll at h
+    cases hf : findNs s m with
+    | none => rw [hf] at h; cases h
+    | some r =>
+      rw [hf] at h
+      simp only at h
+      by_cases hc : hasClass r cls = true
+      · simp only [hc, if_true] at h
+        cases hn with
+        | head => exact ⟨r, hf⟩
+        | tail _ hn' => exact requireClassAll_none s cls rest h n hn'
+      · simp only [hc] at h; cases h
+
 /-! ### the namespace list of a multi-namespace association -/
 
 theorem nmem_false_iff (n : Name) (acc : List Name) : nmem n acc = false ↔ ∀ x ∈ acc, lower x ≠ lower n := by
